@@ -1,4 +1,5 @@
 import FparserModel.Proofs.IoStmtBasic
+import FparserModel.Proofs.IoStmtHollerith
 /-!
 Property C06 at the leaf classes: which exceptions can ESCAPE from the modelled `match` methods of
 `FparserModel/IoStmt.lean`.
@@ -969,40 +970,44 @@ theorem matchIoControlSpecList_total (o : Oracle Node) (s : Str) (e : Exc)
             · exact absurd h2 (ioControlChecks_not_raises _ _ _ _ _)
           · exact named_raises h1
 
-/-! ## Format_Item_List: the EXACT statement (its plan does carry reachable `Slot.raise`s) -/
+/-! ## Format_Item_List: its plan carries `Slot.raise .keyError` (the tokeniser inside the loop) and, syntactically, the
+    `ValueError` of `int(...)` — UNREACHABLE since the repair fa6d1cf of /repo (`hollerith_count_int`) -/
 
-/-- the only `Slot.raise`s are `ValueError` (`int("1 2")`) and the tokeniser's `KeyError` -/
-def RaiseVK (l : List Slot) : Prop := ∀ e, Slot.raise e ∈ l → e = .valueError ∨ e = .keyError
+/-- the only `Slot.raise` is the tokeniser's `KeyError` -/
+def RaiseK (l : List Slot) : Prop := ∀ e, Slot.raise e ∈ l → e = .keyError
 
-theorem RaiseVK.nil : RaiseVK [] := fun _ h => by cases h
-theorem RaiseVK.fail : RaiseVK [.fail] := fun _ h => by simp at h
-theorem RaiseVK.ve : RaiseVK [.raise .valueError] := fun e h => by
-  simp only [List.mem_cons, List.not_mem_nil, or_false, Slot.raise.injEq] at h; exact .inl h
-theorem RaiseVK.ke : RaiseVK [.raise .keyError] := fun e h => by
-  simp only [List.mem_cons, List.not_mem_nil, or_false, Slot.raise.injEq] at h; exact .inr h
-theorem RaiseVK.child {c : ClassId} {t : Str} {l : List Slot} (h : RaiseVK l) : RaiseVK (.child c t :: l) :=
+theorem RaiseK.nil : RaiseK [] := fun _ h => by cases h
+theorem RaiseK.fail : RaiseK [.fail] := fun _ h => by simp at h
+theorem RaiseK.ke : RaiseK [.raise .keyError] := fun e h => by
+  simp only [List.mem_cons, List.not_mem_nil, or_false, Slot.raise.injEq] at h; exact h
+theorem RaiseK.child {c : ClassId} {t : Str} {l : List Slot} (h : RaiseK l) : RaiseK (.child c t :: l) :=
   fun e he => by
     rcases List.mem_cons.1 he with h1 | h1
     · cases h1
     · exact h e h1
+/-- the `int(...)` branch: impossible -/
+theorem RaiseK.hol {cur m : Str} {l : List Slot} (hm : hollerithPrefix cur = some m)
+    (hn : pyInt (Combi.noSpaces m.dropLast) = none) : RaiseK l := by
+  obtain ⟨n, hn'⟩ := hollerith_count_int hm
+  rw [hn'] at hn; cases hn
 
-theorem formatItemListLoop_raiseVK : ∀ (fuel : Nat) (cur : Str), RaiseVK (formatItemListLoop fuel cur)
-  | 0, _ => by unfold formatItemListLoop; exact RaiseVK.fail
+theorem formatItemListLoop_raiseK : ∀ (fuel : Nat) (cur : Str), RaiseK (formatItemListLoop fuel cur)
+  | 0, _ => by unfold formatItemListLoop; exact RaiseK.fail
   | fuel + 1, cur => by
-    have ih := formatItemListLoop_raiseVK fuel
+    have ih := formatItemListLoop_raiseK fuel
     unfold formatItemListLoop
     repeat (first
-      | with_reducible exact RaiseVK.nil
-      | with_reducible exact RaiseVK.fail
-      | with_reducible exact RaiseVK.ve
-      | with_reducible exact RaiseVK.ke
+      | with_reducible exact RaiseK.nil
+      | with_reducible exact RaiseK.fail
+      | with_reducible exact RaiseK.ke
       | with_reducible exact ih _
-      | with_reducible refine RaiseVK.child ?_
+      | with_reducible refine RaiseK.child ?_
+      | exact RaiseK.hol (by assumption) (by assumption)
       | split
       | dsimp only)
 
 theorem planFormatItemList_raise (s : Str) (slots : List Slot) (h : planFormatItemList s = .ok slots) :
-    ∀ e, Slot.raise e ∈ slots → e = .valueError ∨ e = .keyError := by
+    ∀ e, Slot.raise e ∈ slots → e = .keyError := by
   unfold planFormatItemList at h
   split at h
   · cases h
@@ -1010,7 +1015,7 @@ theorem planFormatItemList_raise (s : Str) (slots : List Slot) (h : planFormatIt
   split at h
   · cases h
   cases h
-  exact formatItemListLoop_raiseVK _ _
+  exact formatItemListLoop_raiseK _ _
 
 theorem planFormatItemList_not_raises (s : Str) (e : Exc) : planFormatItemList s ≠ .raises e := by
   unfold planFormatItemList
@@ -1020,21 +1025,15 @@ theorem planFormatItemList_not_raises (s : Str) (e : Exc) : planFormatItemList s
   dsimp only at h
   split at h <;> cases h
 
-/-- reachable: `int("1 2")` in the Hollerith branch of `Format_Item_List.match` is a `ValueError` -/
-theorem planFormatItemList_valueError_witness :
-    planFormatItemList "1 2habc".toList = .ok [.raise .valueError] := by decide +kernel
-
-/-- an exception escaping from `Format_Item_List.match`: additionally the `ValueError` -/
+/-- an exception escaping from `Format_Item_List.match` (after fa6d1cf): as for every other class -/
 theorem formatItemList_match_total (o : Oracle Node) (s : Str) (e : Exc)
     (h : (planFormatItemList s).bind (runSlots o) = .raises e) :
-    e = .valueError ∨ e = .keyError ∨ ∃ c t, o.call c t = .raises e := by
+    e = .keyError ∨ ∃ c t, o.call c t = .raises e := by
   rcases Res.bind_eq_raises h with h1 | ⟨slots, h1, h2⟩
   · exact absurd h1 (planFormatItemList_not_raises s e)
   · rcases runSlots_raises h2 with h3 | ⟨c, t, _, h3⟩
-    · rcases planFormatItemList_raise s slots h1 e h3 with h4 | h4
-      · exact .inl h4
-      · exact .inr (.inl h4)
-    · exact .inr (.inr ⟨c, t, h3⟩)
+    · exact .inl (planFormatItemList_raise s slots h1 e h3)
+    · exact .inr ⟨c, t, h3⟩
 
 /-! ## the dispatch -/
 
@@ -1177,7 +1176,7 @@ theorem planOf_total (std : Std) (c : ClassId) (plan : Str → Res (List Slot)) 
 theorem planOf_formatItemList (std : Std) : planOf std C.Format_Item_List = some planFormatItemList := by
   cases std <;> rfl
 
-theorem matchOf_total (std : Std) (o : Oracle Node) (c : ClassId) (s : Str) (e : Exc) (hc : c ≠ C.Format_Item_List)
+theorem matchOf_total_aux (std : Std) (o : Oracle Node) (c : ClassId) (s : Str) (e : Exc) (hc : c ≠ C.Format_Item_List)
     (h : matchOf std o c s = some (.raises e)) : e = .keyError ∨ ∃ c' t, o.call c' t = .raises e := by
   unfold matchOf at h
   split at h
@@ -1206,14 +1205,21 @@ theorem matchOf_total (std : Std) (o : Oracle Node) (c : ClassId) (s : Str) (e :
     · exact matchForallHeader_total o s e (Option.some.inj h)
     · cases h
 
-/-- the one exception: `Format_Item_List.match` also lets the `ValueError` of `int("1 2")` escape -/
 theorem matchOf_formatItemList_total (std : Std) (o : Oracle Node) (s : Str) (e : Exc)
     (h : matchOf std o C.Format_Item_List s = some (.raises e)) :
-    e = .valueError ∨ e = .keyError ∨ ∃ c' t, o.call c' t = .raises e := by
+    e = .keyError ∨ ∃ c' t, o.call c' t = .raises e := by
   unfold matchOf at h
   rw [planOf_formatItemList] at h
   dsimp only at h
   exact formatItemList_match_total o s e (Res.map_eq_raises (Option.some.inj h))
+
+/-- **match_total** for EVERY modelled class (both standards): an exception escaping from `match` is the `KeyError` of
+    string_replace_map's un-nesting loop or was raised inside a child call -/
+theorem matchOf_total (std : Std) (o : Oracle Node) (c : ClassId) (s : Str) (e : Exc)
+    (h : matchOf std o c s = some (.raises e)) : e = .keyError ∨ ∃ c' t, o.call c' t = .raises e := by
+  by_cases hc : c = C.Format_Item_List
+  · subst hc; exact matchOf_formatItemList_total std o s e h
+  · exact matchOf_total_aux std o c s e hc h
 
 #print axioms planWrite_total
 #print axioms planRead_total
@@ -1276,7 +1282,6 @@ theorem matchOf_formatItemList_total (std : Std) (o : Oracle Node) (s : Str) (e 
 #print axioms matchIoControlSpecList_total
 #print axioms planFormatItemList_raise
 #print axioms planFormatItemList_not_raises
-#print axioms planFormatItemList_valueError_witness
 #print axioms formatItemList_match_total
 #print axioms planOf_total
 #print axioms planOf_formatItemList
